@@ -10,7 +10,13 @@ EntryJson(i) ==
               [name |-> Catalog[i].sgs[j].name, types |-> Catalog[i].sgs[j].types, sub |-> Subs[i][j]]],
    super |-> Supers[i],
    universes |-> Catalog[i].universes]
-Init == x = 0 /\ \A i \in DOMAIN Catalog : PrintT(ToJson(EntryJson(i)))
+\* the pinned operations of every entry (also model-checked in FedNondet) as cases with their expected outcome
+PinnedJson(i, k) ==
+  [entry |-> Catalog[i].name, doc |-> Catalog[i].ops[k].doc, vars |-> Catalog[i].ops[k].vars,
+   exp |-> [u \in DOMAIN Catalog[i].universes |-> Exec(Mono(Supers[i], Catalog[i].universes[u]), Catalog[i].ops[k].doc, Catalog[i].ops[k].vars)]]
+Init == /\ x = 0
+        /\ \A i \in DOMAIN Catalog : PrintT(ToJson(EntryJson(i)))
+        /\ \A i \in DOMAIN Catalog : \A k \in DOMAIN Catalog[i].ops : PrintT(ToJson(PinnedJson(i, k)))
 Next == UNCHANGED x
 \* the sanity conditions every catalog entry must satisfy (checked in the same run)
 CatalogSane == CatalogOK
